@@ -820,6 +820,13 @@ func (c *Ctx) topAssigns() (locs []Loc, star bool, has bool) {
 					only = true
 					ts = append(ts, t[5:])
 				}
+				if t == "assumed" {
+					// "assigns[assumed] ...": the frame is used at call sites but NOT proved for the function
+					// itself (reflect-heavy code); recorded as an assumption, while the function's other
+					// clauses are verified
+					c.assumedClauses["frame assumed, not proved: "+c.fnKey()+" assigns "+normSpace(cl.Text)] = true
+					return nil, true, false
+				}
 			}
 			if !only || c.tagSelected(ts) {
 				has = true
